@@ -57,11 +57,11 @@ _KQ = dict(engine="kq", driver="kqrun", trace_spec="KqueueTrace", mc=["MC_Kq"],
                         "the simulation is calibrated against the repository's recorded kqueue expectations: bin/kqcalibrate replays every testdata script the repository runs on FreeBSD "
                         "(all 40 applicable ones of watch-dir, watch-file, watch-symlink) through the backend on the simulator and obtains exactly the recorded freebsd/kqueue events; a real BSD kernel is not observed",
                         "quiescence is detected from goroutine states and the simulator's pending-knote count"])
-PLANS["C17"] = dict(_KQ, also_kqstress=True, quick=[("kqdir", 250, ""), ("kqsym", 60, ""), ("kqcycle", 6, "n=100"), ("kqburst", 20, ""), ("kqfault", 30, ""), ("kqkfault", 40, ""), ("kqnested", 40, ""), ("kqseq", 60, ""), ("kqdot", 30, ""), ("tlckq", 1100, "k=3"), ("tlckq", 1500, "k=4")],
-                    thorough=[("kqdir", 6000, ""), ("kqsym", 1500, ""), ("kqcycle", 30, "n=1000"), ("kqburst", 300, ""), ("kqfault", 400, ""), ("kqkfault", 600, ""), ("kqnested", 1000, ""), ("kqseq", 1500, ""), ("kqdot", 500, ""), ("tlckq", 20000, "k=4"), ("tlckq", 30000, "k=5")])
-PLANS["C18"] = dict(_KQ, quick=[("kqdir", 300, ""), ("kqsym", 60, ""), ("kqburst", 40, ""), ("kqnested", 60, ""), ("kqseq", 120, ""), ("kqdot", 40, ""), ("tlckq", 1100, "k=3"), ("tlckq", 1500, "k=4")],
-                    thorough=[("kqdir", 8000, ""), ("kqsym", 1500, ""), ("kqburst", 600, ""), ("kqnested", 1500, ""), ("kqseq", 3000, ""), ("kqdot", 800, ""), ("tlckq", 20000, "k=4"), ("tlckq", 30000, "k=5")])
-PLANS["C15"] = dict(engine="ops")
+PLANS["C17"] = dict(_KQ, also_kqstress=True, quick=[("kqdir", 250, ""), ("kqsym", 60, ""), ("kqcycle", 6, "n=100"), ("kqburst", 20, ""), ("kqfault", 30, ""), ("kqkfault", 40, ""), ("kqnested", 40, ""), ("kqseq", 60, ""), ("kqdot", 30, ""), ("kqredir", 30, ""), ("kqblind", 20, ""), ("tlckq", 1100, "k=3"), ("tlckq", 1500, "k=4")],
+                    thorough=[("kqdir", 6000, ""), ("kqsym", 1500, ""), ("kqcycle", 30, "n=1000"), ("kqburst", 300, ""), ("kqfault", 400, ""), ("kqkfault", 600, ""), ("kqnested", 1000, ""), ("kqseq", 1500, ""), ("kqdot", 500, ""), ("kqredir", 400, ""), ("kqblind", 300, ""), ("tlckq", 20000, "k=4"), ("tlckq", 30000, "k=5")])
+PLANS["C18"] = dict(_KQ, quick=[("kqdir", 300, ""), ("kqsym", 60, ""), ("kqburst", 40, ""), ("kqnested", 60, ""), ("kqseq", 120, ""), ("kqdot", 40, ""), ("kqredir", 30, ""), ("kqblind", 20, ""), ("tlckq", 1100, "k=3"), ("tlckq", 1500, "k=4")],
+                    thorough=[("kqdir", 8000, ""), ("kqsym", 1500, ""), ("kqburst", 600, ""), ("kqnested", 1500, ""), ("kqseq", 3000, ""), ("kqdot", 800, ""), ("kqredir", 400, ""), ("kqblind", 300, ""), ("tlckq", 20000, "k=4"), ("tlckq", 30000, "k=5")])
+PLANS["C15"] = dict(engine="ops", also_ino=dict(quick=[("withops", 150, ""), ("reops", 80, "")], thorough=[("withops", 3000, ""), ("reops", 1500, "")]))
 PLANS["C16"] = dict(engine="ops")
 PLANS["C20"] = dict(engine="diff")
 # C07: concurrent histories (stress engine) + the Add/Remove-versus-reader interleavings that a sequential driver can force
